@@ -205,7 +205,7 @@ impl Check for GroupCheck {
 
     fn budget(&self, tier: Tier) -> u64 {
         match tier {
-            Tier::Quick => self.enumerated(tier) + 20_000,
+            Tier::Quick => self.enumerated(tier) + 50_000,
             Tier::Thorough => self.enumerated(tier) + 60_000,
         }
     }
